@@ -39,6 +39,10 @@ pub enum Op {
     /// connect and open the stream again unless open
     Reopen,
     Sleep { ms: u16 },
+    /// the stream is closed, then `opener` opens it again while the other side's user accepts and at once stops reading its
+    /// handle for 300 ms; the opener sends `count` notifications the moment it sees the stream open (they queue up behind the
+    /// other side's unread stream-opened event), and a few more after the stall
+    OpenBehindStall { opener: u8, sync: bool, count: u8 },
 }
 
 #[derive(Debug, Clone, Serialize, Deserialize)]
@@ -72,6 +76,7 @@ fn op_strategy() -> impl Strategy<Value = Op> {
         1 => node.clone().prop_map(|node| Op::CutConn { node }),
         3 => Just(Op::Reopen),
         3 => prop_oneof![Just(0u16), Just(2), Just(20), Just(100), Just(300)].prop_map(|ms| Op::Sleep { ms }),
+        1 => (0u8..2, any::<bool>(), prop_oneof![Just(1u8), Just(5), Just(40)]).prop_map(|(opener, sync, count)| Op::OpenBehindStall { opener, sync, count }),
     ]
 }
 
@@ -143,6 +148,15 @@ fn window_cycles_strategy() -> impl Strategy<Value = Case> {
         any::<u64>(),
     )
         .prop_map(|(sync_channel, async_channel, max_size, ops, seed)| Case { sync_channel, async_channel, max_size, ops, seed })
+}
+
+/// Streams opened towards a user that does not read its handle at that moment, with traffic right behind the open.
+fn open_behind_stall_strategy() -> impl Strategy<Value = Case> {
+    let item = prop_oneof![
+        4 => (0u8..2, any::<bool>(), prop_oneof![Just(1u8), Just(5), Just(40)]).prop_map(|(opener, sync, count)| Op::OpenBehindStall { opener, sync, count }),
+        1 => op_strategy(),
+    ];
+    (config_strategy(), prop::collection::vec(item, 1..4), any::<u64>()).prop_map(|((sync_channel, async_channel, max_size), ops, seed)| Case { sync_channel, async_channel, max_size, ops, seed })
 }
 
 fn connected(log: &[Obs], node: usize, peer: &PeerId) -> bool {
@@ -247,6 +261,7 @@ fn run_case(c: &Case) -> CaseResult {
     let mut sent_any = false;
     let mut longest_stall = 0u64;
     let mut throttled = false;
+    let mut opened_behind_stall = false;
 
     let send = |nodes: &Vec<Node>, next_tag: &mut HashMap<(usize, bool), u64>, n: usize, sync: bool, count: u32, size: usize| {
         let e = next_tag.entry((n, sync)).or_insert(1);
@@ -307,6 +322,40 @@ fn run_case(c: &Case) -> CaseResult {
                 let _ = reopen(&nodes, &log);
             }
             Op::Sleep { ms } => std::thread::sleep(Duration::from_millis(*ms as u64)),
+            Op::OpenBehindStall { opener, sync, count } => {
+                let u = *opener as usize % 2;
+                let v = 1 - u;
+                // start from a closed stream on a live connection
+                if !(connected(&log.lock(), 0, &p1) && connected(&log.lock(), 1, &p0)) && !reopen(&nodes, &log) {
+                    continue;
+                }
+                if stream_open(&log.lock(), u, &peers[v]) || stream_open(&log.lock(), v, &peers[u]) {
+                    nodes[u].send(Cmd::NotifClose(peers[v]));
+                    if !wait_until(&log, Duration::from_millis(2000), |l| !stream_open(l, u, &peers[v]) && !stream_open(l, v, &peers[u])) {
+                        continue;
+                    }
+                    std::thread::sleep(Duration::from_millis(60));
+                }
+                if let Some(until) = stall_until[v] {
+                    std::thread::sleep(until.saturating_duration_since(std::time::Instant::now()));
+                }
+                nodes[v].send(Cmd::NotifSetPolicy(4));
+                std::thread::sleep(Duration::from_millis(5));
+                nodes[u].send(Cmd::NotifOpen(peers[v]));
+                let opened = wait_until(&log, Duration::from_millis(1500), |l| stream_open(l, u, &peers[v]));
+                stall_until[v] = Some(std::time::Instant::now() + Duration::from_millis(300));
+                longest_stall = longest_stall.max(300);
+                if opened {
+                    sent_any = true;
+                    opened_behind_stall = true;
+                    send(&nodes, &mut next_tag, u, *sync, *count as u32, 8);
+                    std::thread::sleep(Duration::from_millis(380));
+                    send(&nodes, &mut next_tag, u, *sync, 2, 8);
+                } else {
+                    std::thread::sleep(Duration::from_millis(320));
+                }
+                nodes[v].send(Cmd::NotifSetPolicy(0));
+            }
         }
     }
 
@@ -500,6 +549,8 @@ fn run_case(c: &Case) -> CaseResult {
     Ok(CaseOk::trivial()
         .nt(big_under_stall || clog_seen || oversize_sent || (traffic_then_close && delivered_total > 0) || delivered_bytes > 1 << 20)
         .class_if(big_under_stall, "burst-over-4096-while-receiver-stalled")
+        .nt(opened_behind_stall)
+        .class_if(opened_behind_stall, "stream-opened-towards-a-stalled-reader-with-traffic-behind")
         .class_if(throttled, "slow-consumer")
         .class_if(throttled && delivered_total > 4200, "slow-consumer-received-more-than-4200")
         .class_if(clog_seen, "sync-send-answered-clogged")
@@ -529,5 +580,6 @@ pub fn run(ctx: &mut Ctx) {
     let t = ctx.tier;
     ctx.campaign("scripts", CampaignCfg::new(t.pick(320, 6_000)).shards(16).shrink_iters(6), strategy, run_case);
     ctx.campaign("window-cycles", CampaignCfg::new(t.pick(160, 3_000)).shards(16).shrink_iters(6), window_cycles_strategy, run_case);
+    ctx.campaign("open-behind-stall", CampaignCfg::new(t.pick(96, 2_000)).shards(16).shrink_iters(6), open_behind_stall_strategy, run_case);
     ctx.campaign("backpressure", CampaignCfg::new(t.pick(160, 3_000)).shards(16).shrink_iters(6), backpressure_strategy, run_case);
 }
